@@ -241,12 +241,19 @@ type FuncSpec struct {
 	// (value × final receiver) (see AlsoRet); the statement `_ = recv.M()` (called for its effect on the receiver) becomes
 	// `let (_, recv) := M recv`
 	RecvState map[string]string
+	// ---- (C19, construction path; translate_c19op.go) all default-off
+	// OutCallAny: with LoopStyle "ctl" / "state", a call of a LocalOut callee with Keep ANYWHERE in the loop body (`if err := opt(o); err != nil`,
+	// `err := opt(o)`) counts as an assignment to its pointer argument when the loop's state is collected.
+	// SpreadAppend: `append(a, b...)` -> (a ++ b) (functional reading, as ValueOnly).
+	OutCallAny   bool
+	SpreadAppend bool
 }
 
 // StructLit: `&pkg.T{K: V, ...}` becomes `({ K := V, ... } : Lean)`, restricted to the fields in Keep.
 type StructLit struct {
 	Lean string
 	Keep []string
+	Ctor string // (C19) a POSITIONAL literal `T{a, b}` -> (Ctor a b); without it a positional literal is unsupported
 }
 
 // methods implemented by translated functions: recv.M(args) -> (F now recv args)
@@ -773,6 +780,9 @@ func (t *tr) expr(e ast.Expr) string {
 			for _, e := range x.Elts {
 				kv, ok := e.(*ast.KeyValueExpr)
 				if !ok {
+					if sl.Ctor != "" {
+						return t.positionalLit(sl, x) // translate_c19op.go
+					}
 					return t.bad("positional struct literal "+tn, x)
 				}
 				k := exprString(kv.Key)
@@ -965,6 +975,14 @@ func (t *tr) call(c *ast.CallExpr) string {
 	}
 	if t.spec.Closures && full == "http.HandlerFunc" && len(c.Args) == 1 {
 		return t.expr(c.Args[0]) // conversion of a function value to the handler type
+	}
+	if full == "append" && len(c.Args) == 2 && c.Ellipsis.IsValid() && t.spec.SpreadAppend {
+		return "(" + t.expr(c.Args[0]) + " ++ " + t.expr(c.Args[1]) + ")"
+	}
+	if full == "new" && len(c.Args) == 1 {
+		if z, ok := t.spec.Rename["new("+exprString(c.Args[0])+")"]; ok {
+			return z // new(T) in expression position: the zero value the spec names
+		}
 	}
 	if full == "append" && len(c.Args) >= 2 && !c.Ellipsis.IsValid() {
 		// functional reading of append is only sound when the slice owns its backing array
@@ -2868,6 +2886,16 @@ func (t *tr) assignedOuter(body *ast.BlockStmt) []string {
 	seen := map[string]bool{}
 	local := map[string]bool{}
 	ast.Inspect(body, func(n ast.Node) bool {
+		if c, isCall := n.(*ast.CallExpr); isCall && t.spec.OutCallAny {
+			if op, found := t.lookupOutParam(exprString(c.Fun)); found && op.Keep && op.Index < len(c.Args) {
+				name := strings.TrimPrefix(exprString(c.Args[op.Index]), "&")
+				if t.declared[name] && !local[name] && !seen[name] {
+					seen[name] = true
+					out = append(out, name)
+				}
+			}
+			return true
+		}
 		if es, isExpr := n.(*ast.ExprStmt); isExpr && t.spec.OutCallState {
 			if c, isCall := es.X.(*ast.CallExpr); isCall {
 				if op, found := t.lookupOutParam(exprString(c.Fun)); found && op.Keep && op.Index < len(c.Args) {
